@@ -50,7 +50,10 @@ RULE = ("(1) every case of the HTML tokenizer cover (73 start states × 41 chara
         "one-character chunks, both exact_errors settings: no panic, queue drained, exactly one EOF as last token, model never "
         "out of fuel; (2) XML tokenizer stress strings whole/chunked; (3) `total` engine: documents, fragments (14 contexts) "
         "and XML with pathological depth/length (3·10^3 quick, 3·10^4..10^6 thorough: nested elements of every class — formatting, "
-        "block, table parts, template, select, svg/math, unclosed comments, attribute floods, character-reference floods) "
+        "block, table parts, template, select, svg/math, unclosed comments, attribute floods, character-reference floods), "
+        "every element name × every fragment context, adoption-agency / Noah's-ark / foster-parenting families rendered as "
+        "documents and fragments, foreign elements with HTML-significant names above integration points, CDATA edge cases, "
+        "random tag soup, "
         "under chunk sizes 0/1/7/4096 and option sets. non-trivial = input longer than 8 characters or started in a non-data "
         "state; distinct = distinct (case, output)")
 EXPLANATION = ("HTML tokenizer model: no panic, termination within fuelFor (strictly decreasing measure), feed drains, end() total with EOF last; XML tokenizer model: no panic, termination within fuelFor, feed drains, end() total with EOF last; tree builders and real stack/time are exercised at runtime with a watchdog")
